@@ -173,6 +173,10 @@ class LabelProbabilityInjector(Injector):
             sample_idxs_grouped.extend(cls_idx)
             self._p_distribution.extend(np.ones(cls_idx.shape[0]) * p_individual)
 
+        # an empty window leaves nothing to resample
+        if len(sample_idxs_grouped) == 0:
+            return self._postprocess(ret)
+
         # if classes skipped, ensure probability distribution adds to 1
         p_leftover = (1 - sum(self._p_distribution)) / len(self._p_distribution)
         self._p_distribution = [p + p_leftover for p in self._p_distribution]
